@@ -555,3 +555,18 @@ Proof.
   repeat match goal with |- _ /\ _ => split end; unfold call_fn; psimpl; try reflexivity;
     cbv beta iota delta [arith]; rewrite ?T3; psimpl; rewrite R; reflexivity.
 Qed.
+
+(* ---------- try_with_min_align_and_capacity: the two assertions are ArenaModel.ctor_ok, the zero
+   test and the layout are with_capacity's, and no chunk size is given to new_chunk_memory_details ---------- *)
+Lemma src_ctor_ok m cap :
+  let en := cenv m in
+  call_fn src_fns en "ctor_align_is_pow2" [VN cap] = Ret (VB (pow2b m)) /\
+  call_fn src_fns en "ctor_align_small" [VN cap] = Ret (VB (m <=? actual_calign)) /\
+  call_fn src_fns en "ctor_capacity_zero" [VN cap] = Ret (VB (cap =? 0)) /\
+  call_fn src_fns en "ctor_layout" [VN cap]
+    = Ret (if layout_ok cap m then vlayout (mkLayout cap m) else VNone) /\
+  call_fn src_fns en "ctor_given_size" [VN cap] = Ret VNone.
+Proof.
+  intros en. unfold en. repeat match goal with |- _ /\ _ => split end; unfold call_fn; rsimpl; try reflexivity.
+  destruct (layout_ok cap m); rsimpl; reflexivity.
+Qed.
